@@ -362,7 +362,8 @@ class ConstantDiagLinearOperator(DiagLinearOperator):
     def _mul_constant(
         self: Float[LinearOperator, "*batch M N"], other: Union[float, torch.Tensor]
     ) -> Float[LinearOperator, "*batch M N"]:
-        return self.__class__(self.diag_values * other, diag_shape=self.diag_shape)
+        # (`other` is a scalar or a *batch of constants, diag_values is *batch x 1)
+        return self.__class__(self.diag_values * other.unsqueeze(-1), diag_shape=self.diag_shape)
 
     def _mul_matrix(
         self: Float[LinearOperator, "... #M #N"],
